@@ -231,6 +231,16 @@ CHECKS += [
          technique="symbolic execution of the Hessian transform's tapes/post-processing on polynomial terms vs symbolic second derivatives; z3 QF_NRA"),
 ]
 
+CHECKS += [
+    dict(property_id="C61", category="proof", engine=E1,
+         text="The REAL step_and_cost / apply_grad / compute_grad of GradientDescent, Momentum, NesterovMomentum, Adagrad, RMSProp and Adam run for 2-3 steps on symbolic "
+              "parameters, a quadratic objective with symbolic coefficients and (also) symbolic hyper-parameters in (0,1), over four argument layouts incl. non-trainable "
+              "positional arguments before/between trainable ones; z3 proves: iterates == documented update rule, gradient evaluated at the documented point "
+              "(look-ahead for Nesterov), step_and_cost returns the objective at the parameters before the step.",
+         note=PROOF_NOTE + " Stub: module-level get_gradient replaced by an oracle with autograd's gradient/forward semantics. sqrt by defining equations; adaptive methods proved up to 1e-9. Outside: QNG, Rotosolve/Rotoselect, SPSA, ShotAdaptive, Riemannian.",
+         technique="symbolic execution of optimizer steps on polynomial terms with sqrt atoms vs documented update formulas; z3 QF_NRA"),
+]
+
 _NOT_BUILT = "claimed in DESIGN.md §4 but its solver-based check is not built yet in this tree"
 NOT_APPLICABLE_REASONS = {
     "C04": "equality/hash: Python hash() of concrete payloads and tolerance-based allclose relations; no exact relation a solver can decide",
